@@ -608,6 +608,137 @@ fn stress(rep: &Report, seed: u64, shard: u64, rounds: u64, sleep_us: u64, miri:
     rep.count("oracle.linearization_states", explored);
 }
 
+// ---------------------------------------------------------------------------------------
+// actor mode: a real, connected `ActiveRelayActor` with stale mailbox messages
+//
+// The `RelayActor` publishes a home-relay choice on the watch and then tells the per-relay actors
+// (`SetHomeRelay(true/false)`).  A connected actor that gets to read a stale `SetHomeRelay(true)`
+// only after the home relay has moved on must not publish its own URL again.  The scenario plays
+// the `RelayActor`'s part with the watch calls the real one makes; the per-relay actor is the
+// real one, connected to an in-process relay server (proved by a datagram it receives from a
+// helper client), and every value the watch takes is recorded by a watcher task.
+mod actor_mode {
+    use std::time::Duration;
+
+    use common::{Report, Rng};
+    use iroh::verif_hooks::home_relay::{ActiveRelay, ConnState, HomeRelayWatch};
+    use iroh_base::{RelayUrl, SecretKey};
+    use iroh_relay::{
+        client::ClientBuilder,
+        protos::relay::{ClientToRelayMsg, Datagrams},
+    };
+    use n0_future::SinkExt;
+    use n0_watcher::Watcher;
+    use serde_json::json;
+
+    pub async fn run(rep: &Report, rng: &mut Rng, cases: u64) {
+        let (_map, url_a, _server) = match iroh::test_utils::run_relay_server().await {
+            Ok(x) => x,
+            Err(e) => {
+                rep.inconclusive("actor-mode:relay-server-did-not-start");
+                rep.note(format!("{e:?}"));
+                return;
+            }
+        };
+        let url_b: RelayUrl = "https://b.relay.invalid".parse().unwrap();
+        let url_c: RelayUrl = "https://c.relay.invalid".parse().unwrap();
+        for case in 0..cases {
+            rep.eval();
+            let watch = HomeRelayWatch::default();
+            let mut key = [0u8; 32];
+            rng.fill(&mut key);
+            let secret = SecretKey::from_bytes(&key);
+            let actor_id = secret.public();
+            let mut actor = ActiveRelay::spawn(url_a.clone(), &watch, secret);
+            // prove the actor is connected: a helper client sends it a datagram through the relay
+            rng.fill(&mut key);
+            let helper_secret = SecretKey::from_bytes(&key);
+            let tls = iroh_relay::tls::CaTlsConfig::insecure_skip_verify().client_config(iroh_relay::tls::default_provider()).expect("tls");
+            let helper = ClientBuilder::new(url_a.clone(), helper_secret, iroh::dns::DnsResolver::new()).tls_client_config(tls).connect().await;
+            let mut helper = match helper {
+                Ok(h) => h,
+                Err(e) => {
+                    rep.inconclusive("actor-mode:helper-client-did-not-connect");
+                    rep.note(format!("{e:#}"));
+                    actor.stop().await;
+                    continue;
+                }
+            };
+            let mut connected = false;
+            for _ in 0..100 {
+                let _ = helper.send(ClientToRelayMsg::Datagrams { dst_endpoint_id: actor_id, datagrams: Datagrams::from(b"c26-probe") }).await;
+                if let Ok(Some(_)) = tokio::time::timeout(Duration::from_millis(100), actor.recv_datagram()).await {
+                    connected = true;
+                    break;
+                }
+            }
+            if !connected {
+                rep.inconclusive("actor-mode:actor-not-connected-within-budget");
+                actor.stop().await;
+                continue;
+            }
+            // record every value the watch takes from now on
+            let mut w = watch.watch();
+            let seen = std::sync::Arc::new(std::sync::Mutex::new(Vec::<Option<String>>::new()));
+            let seen2 = seen.clone();
+            let rec = tokio::spawn(async move {
+                while let Ok(v) = w.updated().await {
+                    seen2.lock().unwrap().push(v.map(|s| format!("{}|{:?}", s.url(), s)));
+                }
+            });
+            // the RelayActor's steps for 2..3 consecutive home changes, A first; the actor reads
+            // its mailbox only afterwards (all steps are synchronous: no await in between)
+            let extra = rng.bool();
+            watch.set(url_a.clone(), ConnState::connecting());
+            let mut sent = actor.try_set_home_relay(true);
+            watch.set(url_b.clone(), ConnState::connecting());
+            sent &= actor.try_set_home_relay(false);
+            let last = if extra {
+                watch.set(url_c.clone(), ConnState::connecting());
+                url_c.clone()
+            } else {
+                url_b.clone()
+            };
+            // wait until the actor has taken both messages out of its mailbox, then a little
+            // longer for the handlers and the watcher task (a late wrong write would only be
+            // missed, never invented)
+            let t = std::time::Instant::now();
+            while !actor.inbox_drained() && t.elapsed() < Duration::from_secs(10) {
+                tokio::time::sleep(Duration::from_millis(1)).await;
+            }
+            let drained = actor.inbox_drained();
+            tokio::time::sleep(Duration::from_millis(30)).await;
+            let final_url = watch.get().map(|s| s.url().to_string());
+            actor.stop().await;
+            rec.abort();
+            let values = seen.lock().unwrap().clone();
+            let replay = json!({"mode": "actor", "case": case, "extra_change": extra});
+            if !sent || !drained {
+                rep.inconclusive("actor-mode:mailbox-not-drained");
+                continue;
+            }
+            rep.count("actor.cases_judged", 1);
+            rep.count("actor.watch_values_recorded", values.len() as u64);
+            let a = url_a.to_string();
+            // after set(B) returned, A must never be observed again
+            let first_b = values.iter().position(|v| v.as_ref().map(|s| s.starts_with(&url_b.to_string())).unwrap_or(false));
+            let a_again = first_b.map(|i| values[i..].iter().any(|v| v.as_ref().map(|s| s.starts_with(&a)).unwrap_or(false))).unwrap_or(false);
+            if a_again || final_url.as_deref() == Some(a.as_str()) {
+                rep.violation(
+                    "C26:actor:demoted-relay-republished-by-stale-mailbox-message",
+                    format!("home relay moved A -> B{} while A's connected actor had SetHomeRelay(true) unread; afterwards the watch showed {:?} (final {:?})", if extra { " -> C" } else { "" }, values, final_url),
+                    replay,
+                );
+            } else if final_url != Some(last.to_string()) {
+                rep.violation("C26:actor:final-home-relay-not-the-last-chosen", format!("final {final_url:?}, last chosen {last}; values {values:?}"), replay);
+            } else {
+                rep.count("actor.stale_message_ignored", 1);
+                rep.nontrivial(format!("actor/{extra}/{}", values.len()).as_bytes());
+            }
+        }
+    }
+}
+
 fn main() {
     let a = args();
     let rep = Report::new(
@@ -711,6 +842,13 @@ fn main() {
     rep.count("stress.window_sleeps", sched::stress_hits());
     rep.set_extra("phase_seconds", json!({"controlled_base": t_base, "controlled_all": t_controlled, "total": rep.elapsed_s()}));
 
+    // ---- actor mode (not under Miri: sockets)
+    if !rep.is_miri() {
+        let rt = tokio::runtime::Builder::new_multi_thread().worker_threads(2).enable_all().build().unwrap();
+        let mut rng = Rng::derive(a.seed, "C26-actor", 0);
+        rt.block_on(actor_mode::run(&rep, &mut rng, a.pick(12, 120)));
+        rep.require("actor.cases_judged", 5);
+    }
     rep.require("controlled.executions", 100);
     rep.require("controlled.status_update_overlapping_choice", 20);
     rep.require("stress.status_update_overlapping_choice", 50);
